@@ -2403,6 +2403,11 @@ class x86_mn(x86_mn_base):
                     ([0]+sse_prefix)[-1]))
                 if 'INVALID' in p or 'REPZ' in p or 'REPNZ' in p:
                     return None
+                if self.admode == u16:
+                    # 16-bit addressing of MMX/SSE operands is not
+                    # supported (the ModRM tables of the mm/xmm register
+                    # files are 32-bit only): do not mis-read the bytes
+                    return None
 
 
 
